@@ -3,38 +3,99 @@
 KERNEL_NOTE = ('Trusted: pyvc itself (executor semantics of the Python subset, heap model, SMT encoding) and z3/cvc5; Python int = mathematical '
                'integers; node ids with consistent ==/hash; ownership layout of pre-states (its preservation is checked); networkx has_edge / dict '
                'factories by model; the induction over histories (establish/preserve/encapsulate) is the textbook argument, not mechanised; '
-               'calls with e <= t are outside the contract (finding D23).')
+               'calls with e <= t are outside the contract (finding D23). The bounded stand-in parts are exhaustive/sampled over a small scope '
+               '(<=3 nodes, instants 0..4 and shifted windows, histories <=7 calls) and are labelled bounded, never counted as proved.')
+BOUNDED_NOTE = ('Bounded stand-in only (labelled as such, never counted as proved): oracle written from the property text, real library run on an '
+                'enumerated small scope stated in the evidence (rule/bound). Nothing beyond the bound is covered.')
 
 CLAIMS = {
-    'C01': {'level': 'other', 'technique': 'contract-based deductive verification (pyvc: AST symbolic execution -> z3/cvc5 VCs) of add_interaction x2',
-            'text': 'Every path of the real add_interaction (both classes, removal mode, t/e present or None) is enumerated from /repo source and the clauses '
-                    'presence_union (forall pair, instant), ever, nodes, raises-iff (NetworkXError / ValueError), no-other-exception are discharged with no bound; '
-                    'has_interaction/__presence_test and the bulk helpers are not yet under contract, hence level other.',
+    'C01': {'level': 'other', 'technique': 'contract-based deductive verification (pyvc: AST symbolic execution -> z3/cvc5 VCs) of add_interaction x2, __presence_test x2, has_interaction x2; bounded stand-in for the bulk helpers',
+            'text': 'Every path of the real add_interaction (both classes, t/e present or None) is enumerated from /repo source and the clauses presence_union '
+                    '(forall pair, instant), ever, nodes, raises-iff (NetworkXError / ValueError), no-other-exception are discharged with no bound; __presence_test '
+                    '(loop invariant over the timeline; the envelope shortcut proved sound from I2) and has_interaction (modular: against the contract of '
+                    '__presence_test) are proved to return exactly the presence relation. add_interactions_from / add_path / add_star / add_cycle and the '
+                    'whole-history statement are covered by the bounded stand-in, hence level other.',
             'note': KERNEL_NOTE},
-    'C03': {'level': 'other', 'technique': 'contract-based deductive verification (pyvc) of add_interaction x2: canonical-timeline invariant I2 + shape I1 as postconditions',
+    'C02': {'level': 'exploration', 'technique': 'bounded stand-in (runtime oracle from the property text over an exhaustively enumerated small scope); no query function is under contract yet',
+            'text': 'All ~30 query entry points (methods and dn.* forms, nbunch subsets with an unknown node) are compared with networkx on the static graph '
+                    '{(u,v): present at t} for every reachable state of the small scope, every t around the inhabited instants and t=None, both classes, both modes. '
+                    'Deviations pinned by the repository tests are listed known findings (D10, D11, D12).',
+            'note': BOUNDED_NOTE},
+    'C03': {'level': 'other', 'technique': 'contract-based deductive verification (pyvc) of add_interaction x2: canonical-timeline invariant I2 + shape I1 as postconditions; bounded stand-in for derived constructors',
             'text': 'I2 (start<=end, transitive separation e_i+1<s_j) and I1 (mirror cells share one edge-data object, distinct pairs own distinct objects) are proved '
-                    'preserved on every path of add_interaction for every pair; derived constructors not yet under contract.',
+                    'preserved on every path of add_interaction for every pair; the graphs produced by time_slice, conversions, readers and node_link_graph are checked '
+                    'canonical (and not sharing interval objects with their source) by the bounded stand-in.',
             'note': KERNEL_NOTE},
-    'C04': {'level': 'other', 'technique': 'contract-based deductive verification (pyvc) of add_interaction x2: snapshot index step clauses + range-loop invariant',
-            'text': 'snapshot_ids_step / snapshot_count_step (counter grows by exactly the newly present instants, loop invariant over range) and runs_are_snapshot_ids proved for all inputs; '
-                    'read side (temporal_snapshots_ids, interactions_per_snapshots) not yet under contract; cardinality lemma L1 assumed.',
-            'note': KERNEL_NOTE + ' Counting lemma L1 (card changes by +-1 when one membership changes) assumed.'},
-    'C05': {'level': 'other', 'technique': 'contract-based deductive verification (pyvc) of add_interaction x2: event-log invariant I4 as postcondition',
-            'text': 'I4 (plus only/at every run start, minus only after a run end, runs closed, one orientation, no default entries) proved preserved on every path; the property form '
-                    '"runs longer than one instant are closed" proved outside the region of known finding D06; stream_interactions not yet under contract.',
+    'C04': {'level': 'other', 'technique': 'contract-based deductive verification (pyvc) of add_interaction x2 (snapshot index step, range-loop invariant), temporal_snapshots_ids x2, interactions_per_snapshots x2',
+            'text': 'Write side: snapshot_ids_step / snapshot_count_step (the counter grows by exactly the newly present instants) and runs_are_snapshot_ids proved for all '
+                    'inputs; read side: temporal_snapshots_ids returns the ascending duplicate-free enumeration of dom Cnt, interactions_per_snapshots returns Cnt(t) / 0 '
+                    '/ the whole map. "Cnt(t) = number of present interactions" needs the cardinality lemma L1 (assumed); avg_number_of_nodes is bounded only.',
+            'note': KERNEL_NOTE + ' Counting lemma L1 (card changes by +-1 when one membership changes) assumed; sorted() and dict() by trusted contract.'},
+    'C05': {'level': 'other', 'technique': 'contract-based deductive verification (pyvc) of add_interaction x2: event-log invariant I4 as postcondition; bounded stand-in for stream_interactions',
+            'text': 'I4 (plus only/at every run start, minus only after a run end, runs closed, one orientation, no default entries) proved preserved on every path; the property '
+                    'form "runs longer than one instant are closed" proved outside the region of known finding D06; ordering / no-repeat / replay of the stream itself are '
+                    'bounded (stream_interactions not yet under contract).',
             'note': KERNEL_NOTE},
-    'C07': {'level': 'other', 'technique': 'contract-based deductive verification (pyvc) of add_interaction x2: frame clauses on both exceptional exits',
-            'text': 'On both rejection exits (ValueError, NetworkXError), in both modes, every representation component is proved equal to its pre-value; bulk helpers not yet under contract.',
+    'C06': {'level': 'exploration', 'technique': 'bounded stand-in (runtime oracle over all windows of an enumerated small scope); time_slice not yet under contract',
+            'text': 'For every reachable state of the small scope and every window around its instants: class, presence inside the window, nodes = endpoints with attributes, '
+                    'source unchanged, slice well formed (C03/C04/C05 oracles on its own presence), slice of slice = intersection, invalid window raises ValueError.',
+            'note': BOUNDED_NOTE},
+    'C07': {'level': 'other', 'technique': 'contract-based deductive verification (pyvc) of add_interaction x2: frame clauses on both exceptional exits; bounded stand-in for bulk helpers and continuations',
+            'text': 'On both rejection exits (ValueError, NetworkXError), in both modes, every representation component is proved equal to its pre-value; "legal continuations '
+                    'behave as if the call had never been made" then follows from determinism; bulk-helper prefix state and continuations are also exercised by the bounded part.',
             'note': KERNEL_NOTE},
-    'C08': {'level': 'other', 'technique': 'contract-based deductive verification (pyvc) of add_interaction x2 with edge_removal=False',
-            'text': 'Accumulative-mode clauses (ever, first appearance kept, snapshot ids = accepted adds, exactly one + per pair at first appearance, no - event) proved on every path; '
-                    '__presence_test accumulative branch not yet under contract.',
-            'note': KERNEL_NOTE},
+    'C08': {'level': 'other', 'technique': 'contract-based deductive verification (pyvc) of add_interaction x2, __presence_test x2, has_interaction x2 with edge_removal=False; bounded stand-in for the queries',
+            'text': 'Accumulative-mode clauses (ever, first appearance kept, snapshot ids = accepted adds, exactly one + per pair at first appearance, no - event, canonical '
+                    'timeline) proved on every path of the kernel; __presence_test/has_interaction proved to return s_0 <= t <= max(dom Cnt); the C02-style queries in this '
+                    'mode are bounded.',
+            'note': KERNEL_NOTE + ' max() and sorted() by trusted contract.'},
+    'C09': {'level': 'exploration', 'technique': 'bounded stand-in (real files: plain/.gz/.bz2/file objects, delimiters, encodings) with an oracle from the property text',
+            'text': 'Exact multiset of rows written, orientation, and presence after reading back, over the small scope x targets x delimiters x encodings x id types; '
+                    'four-column rows. File system and codecs are outside the reach of a contract.', 'note': BOUNDED_NOTE},
+    'C10': {'level': 'exploration', 'technique': 'bounded stand-in (real files) with an oracle from the property text',
+            'text': 'Rows = stream events in order; presence and stream after the round trip; ~20k well-formed logs fed directly to the reader and compared with the oracle '
+                    'meaning of the log. Known finding D06 reported.', 'note': BOUNDED_NOTE},
+    'C11': {'level': 'exploration', 'technique': 'bounded stand-in (real json.dumps/loads) with an oracle from the property text',
+            'text': 'directed flag, nodes incl. isolated ones and attributes, one link per interaction and instant with orientation, rebuilt class/nodes/attributes/presence, '
+                    'custom attrs id, directed argument used only when the data does not say.', 'note': BOUNDED_NOTE},
+    'C12': {'level': 'exploration', 'technique': 'bounded stand-in (clause-by-clause path checker from the property text on all small temporal graphs)',
+            'text': 'Every returned path of time_respecting_paths / all_time_respecting_paths checked against each clause of the property on all 511 undirected presence '
+                    'relations over 3 nodes x 3 instants, directed and shifted variants, string ids, random larger graphs.', 'note': BOUNDED_NOTE},
+    'C13': {'level': 'exploration', 'technique': 'bounded stand-in (brute-force enumeration); the deductive technique does not decide completeness (external all_simple_paths + protocol-level invariant)',
+            'text': 'Result compared with a brute-force enumerator written from C12 on the same spaces; empty result when u absent at start; sample<1 subset; '
+                    'all_time_respecting_paths against per-source calls. Known finding D19 (self-loop hops).', 'note': BOUNDED_NOTE},
+    'C14': {'level': 'exploration', 'technique': 'bounded stand-in (synthetic path lists with ties, duplicates, single hops); contract planned',
+            'text': 'annotate_paths / path_length / path_duration compared with set comprehensions from the property text over generated path lists.', 'note': BOUNDED_NOTE},
+    'C15': {'level': 'exploration', 'technique': 'bounded stand-in (DAG checker from the property text on all small temporal graphs, all roots/targets/windows)',
+            'text': 'Acyclicity, edge soundness, window, sources/targets, ValueError for invalid windows, empty DAG without snapshots; ids not 0-based, negative, with gaps. '
+                    'Known finding D19 (self-loop on the root).', 'note': BOUNDED_NOTE},
+    'C16': {'level': 'exploration', 'technique': 'bounded stand-in (runtime oracle over an enumerated small scope incl. multi-run reciprocal timelines); conversions not yet under contract',
+            'text': 'class, nodes kept, presence relation per the property (union / reciprocal intersection / both directions), source unchanged, result well formed, deep-copy '
+                    'isolation incl. growing a run of the result in place. Known finding D09b (to_directed creates one direction).', 'note': BOUNDED_NOTE},
+    'C17': {'level': 'exploration', 'technique': 'bounded stand-in (exact Fraction recomputation of every statistic from the presence model)',
+            'text': 'All eleven stream-graph measures and the inter-event histograms (global, per node, in/out) recomputed exactly on the small scope. Known finding D24.',
+            'note': BOUNDED_NOTE + ' Floats are compared with tolerance 1e-9 against exact rationals.'},
+    'C18': {'level': 'other', 'technique': 'contract-based deductive verification (pyvc) of compact_timeslot; bounded stand-in (row grammar on real parsers) for the readers',
+            'text': 'compact_timeslot proved to be a strictly increasing bijection from the input set onto 0..k-1 for all finite int sets (sorted/enumerate by trusted contract, '
+                    'dict comprehension with exact overwrite semantics); noise skipping, delimiters, TypeError, keys=True rank substitution are bounded (string handling is '
+                    'outside the encoding).', 'note': KERNEL_NOTE},
+    'C19': {'level': 'other', 'technique': 'static frame (write-effect) analysis of every inherited networkx callable from the installed source + AST obligations on /repo; bounded stand-in sweep',
+            'text': 'Exhaustive over the installed networkx API: every public callable of DynGraph/DynDiGraph defined in networkx is classified pure / blocked before any adjacency '
+                    'write / new-node rows only, anything else fails C19.frame.<name>; each listed mutator is decorated with not_implemented() whose body is a single raise; '
+                    'freeze() rebinds every listed mutator to frozen(*args, **kwargs); no function of /repo outside the kernel, its helpers, __init__ and clear writes the edge '
+                    'representation. The dynamic sweep (every callable x synthesised arguments x small states) is the bounded part. Known finding D21.',
+            'note': 'Trusted: the conservative taint rules of pyvc/frames.py (aliases through local names, .values()/.items(), iteration; a write through an object attribute '
+                    'other than self is not seen), inspect.getsource of the installed networkx, the decorator package signature binding. ' + BOUNDED_NOTE},
+    'C20': {'level': 'exploration', 'technique': 'bounded stand-in; range over IEEE doubles and the two relabelling invariances (2-safety) are not decidable by contracts here',
+            'text': 'Score range, key set, None for empty window, invariance under label-value and node-id renaming, single-label value, sliding = per-snapshot calls stamped '
+                    't+delta, on labelled small DynGraphs for the five path types.', 'note': BOUNDED_NOTE},
 }
 
-_WIP = 'check not built yet in this session (work in progress; see DESIGN.md section 4 for the plan)'
-NOT_CLAIMED = {p: _WIP for p in ('C02', 'C06', 'C09', 'C10', 'C11', 'C12', 'C13', 'C14', 'C15', 'C16', 'C17', 'C18', 'C19', 'C20')}
+NOT_CLAIMED = {}
 
-NOTES = ('Technique family: contract-based deductive verification of the real code. pyvc re-extracts every function from /repo on every run (ast), '
-         'contracts are sidecar modules under contracts/. Levels: proof = all clauses of the property discharged unboundedly; other = mixed (evidence says which '
-         'clauses are proved and which parts are bounded stand-in). Known findings: known_findings.json.')
+NOTES = ('Technique family: contract-based deductive verification of the real code. pyvc re-extracts every function from /repo on every run (ast), contracts are sidecar '
+         'modules under contracts/ (no hook in /repo). Levels: other = mixed (evidence: obligations/discharged for the proved clauses, bounded[] for the stand-in parts with '
+         'their bound); exploration = bounded stand-in only (the property has no function under contract yet, or - C13, C20 and the file/codec parts of C09-C11 - the technique '
+         'cannot decide it; see DESIGN.md). Known findings: known_findings.json (KNOWN-FINDING lines, exit 0). Sub-claims that contract-based verification cannot decide here: '
+         'C13 completeness (equality with a brute-force enumeration over an external all_simple_paths), C20 range over floats and relabelling invariances, byte-level / '
+         'compressed-file behaviour in C09/C10, json.dumps in C11: bounded only, said so in the evidence.')
